@@ -641,6 +641,12 @@ func (this *Writer) writeEndMarker() (err error) {
 }
 
 func (this *Writer) processBlock() error {
+	// A previous batch failed: blocks are missing from the bitstream, the stream
+	// cannot be completed. Never report success for it.
+	if atomic.LoadInt32(&this.blockID) == _CANCEL_TASKS_ID {
+		return &IOError{msg: "Stream in error state: a previous block could not be written", code: kanzi.ERR_WRITE_FILE}
+	}
+
 	if err := this.writeHeader(); err != nil {
 		return err
 	}
